@@ -36,6 +36,8 @@ func (ol OptionCodeList) sort() {
 // String returns a human-readable string for the option names.
 func (ol OptionCodeList) String() string {
 	var names []string
+	// Sort a copy: printing must not reorder the caller's list.
+	ol = append(OptionCodeList(nil), ol...)
 	ol.sort()
 	for _, code := range ol {
 		names = append(names, code.String())
